@@ -496,6 +496,15 @@ func CorpusFlags(seed int64, tier string) []*Case {
 		cases = append(cases, &Case{Origin: "flags:alias-equals-name-stdlib-namesake", Src: jsrc, Cfg: cfg, RunFmts: true,
 			Judge: []string{"C01", "C02", "C10", "C11", "C16", "C19"}})
 	}
+	// unexported interface methods can only be mocked inside the source package
+	unexp := Iface{Name: "Unexp", Methods: []Method{meth("close", nil, nil), meth("get", ps(par("k", Basic("string"))), ps(par("", Basic("int")), par("", errT))),
+		meth("Put", ps(par("k", Basic("string")), par("v", Named(a, "T"))), nil)}}
+	usrc := newSrc("usrc", pkgs, unexp)
+	for b := 0; b < 8; b++ {
+		cfg := Cfg{Dest: "implicit", Stub: b&1 != 0, SkipEnsure: b&2 != 0, WithResets: b&4 != 0, Args: []string{"Unexp"}}
+		cases = append(cases, &Case{Origin: "flags:unexported-methods", Src: usrc, Cfg: cfg, RunFmts: b%4 == 0,
+			Judge: []string{"C01", "C02", "C08", "C11", "C12", "C16", "C19"}})
+	}
 	src := newSrc("fsrc", pkgs, ifs...)
 	for ci, cfg := range allCfgs() {
 		if tier != "thorough" && (ci+int(seed))%4 != 0 {
